@@ -412,7 +412,8 @@ fn main() {
             });
             let b = run_batch(&property, seed, n_runs, threads, &findings, only, deadline, args.flag("--verbose"));
             // harness self-consistency: must never happen
-            let harness_bad = b.stats.get("verdict/skip_harness_include_record_mismatch");
+            let harness_bad = b.stats.get("verdict/skip_harness_include_record_mismatch")
+                + b.stats.get("verdict/skip_harness_model_panic");
             // distinct signatures, first occurrence each
             let mut reported: Vec<(Found, PathBuf)> = vec![];
             let mut seen = std::collections::BTreeSet::new();
@@ -461,7 +462,7 @@ fn main() {
                 if harness_bad > 0 {
                     // only when there is no violation to report: on a broken tree the disagreement
                     // is a symptom (e.g. shifted tree offsets) that some oracle reports as well
-                    eprintln!("harness error: generator and parser disagree on the include statements of {} pristine diagnostic-free files", harness_bad);
+                    eprintln!("harness error: {} runs could not be judged (generator and parser disagree on the include statements of a pristine diagnostic-free file, or the model panicked)", harness_bad);
                     std::process::exit(2);
                 }
                 println!("OK property={} held on everything explored", property);
@@ -612,7 +613,7 @@ fn main() {
                 let (_s, worlds) = gen::gen_cases_in(&mut rng, profile, "/w", Stratum::Static);
                 let w = &worlds[0];
                 let run = oq3sim::exec::run_world_opts(w, true);
-                let (v, _info) = oq3sim::oracle::judge(w, &run, Some("C12"));
+                let (v, _info) = oq3sim::judge_contained(w, &run, Some("C12"));
                 if !matches!(v, Verdict::Ok { .. }) {
                     continue;
                 }
